@@ -24,12 +24,18 @@ def generate(seed, tier):
     rng = stream(seed, "c05")
     big = tier == "thorough" and rng.random() < 0.15
     spec = gen_instance(rng, huge=0.03, sparse_ids=0.03, large=0.008, max_jobs=6 if big else 4, max_machines=5 if big else 4, max_ops=5 if big else 4)
-    names, style = gen_filter(rng, None, p_none=0.45)
+    names, style = gen_filter(rng, None, p_none=0.45, user=0.15)
     faulty = rng.random() < 0.5
     extra = [(0.04, lambda r: ["mk_uns"])]
     ops = gen_dispatch_ops(rng, n_ops(spec), p_query=0.45, p_invalid=0.08 if faulty else 0.0,
                            p_reset=0.04 if faulty else 0.0, extra=extra, episodes=2 if rng.random() < 0.15 else 1)
-    return {"prop": PROP, "cfg": {"instance": spec, "filter": names, "filter_style": style,
+    obs = []
+    if all(d > 0 for job in spec["jobs"] for _, d in job) and rng.random() < 0.25:
+        from ..dworld import BUILDERS
+        obs = [{"t": "residual", "builder": rng.choice(BUILDERS), "rm": True, "rj": True}]
+        if rng.random() < 0.5:
+            obs = [{"t": "is_scheduled", "ft": None}, {"t": "earliest_start_time", "ft": None}] + obs
+    return {"prop": PROP, "cfg": {"instance": spec, "filter": names, "filter_style": style, "observers": obs,
                                   "uns_at_start": rng.random() < 0.5}, "ops": ops}
 
 
